@@ -25,7 +25,7 @@ PROPERTY = "C04"
 # CODE VARIANT FLAGS — the values that match today's code in /repo
 # SORT_SPANS = 1: markup.render ends with `text.spans = sorted(spans)` (pre-finding F8);
 # SORT_SPANS = 0: repaired code, spans kept in the order their tags were opened.
-SORT_SPANS = int(os.environ.get("VERIF_C04_SORT_SPANS", "1"))  # 1 = today's code
+SORT_SPANS = int(os.environ.get("VERIF_C04_SORT_SPANS", "0"))  # 1 = today's code
 
 
 # ------------------------------------------------------------------------------------------------
